@@ -114,9 +114,85 @@ def c18_marathon(seed, run, tier):
     return spec
 
 
+MENU_SIZE = 12
+MENU_SEQS = MENU_SIZE + MENU_SIZE ** 2 + MENU_SIZE ** 3
+
+
+def menu_requests(world):
+    """A fixed menu of twelve request shapes (single and multiple fields, whole-array / pooled / sliced, every
+    input, permuted field lists, one request that must fail), instantiated for the world at hand."""
+    info = gen_data.world_info(world)
+    n = info["n_inputs"]
+    ps = W.parties(world)
+    common = set.intersection(*[set(p["fields"]) for p in ps])
+    min_members = min(sum(1 for f in p["fields"] if W.field_kind(f)[0] == "ens") for p in ps)
+    if min_members >= 1:
+        extra = ["Threshold", (info["thresholds"] or W.THRESHOLDS)[0]]
+    elif [o for o in info["others"] if o in common]:
+        extra = ["Other", [o for o in info["others"] if o in common][0]]
+    elif "pit" in common:
+        extra = ["Pit"]
+    else:
+        extra = ["Fcst"]
+    last = n - 1
+
+    def rq(fields, inp, axis, index, single=False):
+        return {"op": "req", "fields": fields, "single": single, "input": inp, "axis": axis, "index": index, "client": 0}
+    return [
+        rq([["Obs"], ["Fcst"]], 0, "All", None),
+        rq([["Obs"], ["Fcst"]], last, "All", None),
+        rq([["Obs"]], 0, "All", None, True),
+        rq([["Fcst"]], last, "No", 0, True),
+        rq([["Obs"], ["Fcst"]], 0, "Time", {"wrap": 0}),
+        rq([["Obs"], ["Fcst"]], last, "Leadtime", {"wrap": 1}),
+        rq([["Fcst"]], 0, "Location", {"wrap": 1}),
+        rq([["Obs"], extra], 0, "All", None),
+        rq([["Obs"], ["Other", "nosuchfield"]], last, "No", 0),
+        rq([["Obs"], extra], last, "Month", {"wrap": 0}),
+        rq([["Fcst"], ["Obs"]], 0, "No", 0),
+        rq([["Obs"]], last, "Time", {"wrap": 1}),
+    ]
+
+
+def menu_sequence(seed, k):
+    """The k-th element of a permutation (a function of VERIF_SEED alone) of all menu sequences of length 1-3."""
+    import random as _random
+    order = list(range(MENU_SEQS))
+    _random.Random(prng.derive_int(seed, "C18", "menu-permutation")).shuffle(order)
+    j = order[k % MENU_SEQS]
+    if j < MENU_SIZE:
+        return [j]
+    j -= MENU_SIZE
+    if j < MENU_SIZE ** 2:
+        return [j // MENU_SIZE, j % MENU_SIZE]
+    j -= MENU_SIZE ** 2
+    return [j // MENU_SIZE ** 2, (j // MENU_SIZE) % MENU_SIZE, j % MENU_SIZE]
+
+
+def c18_menu(seed, run, tier, k):
+    """Stratified part of the search: the quantifier of C18 speaks of all histories up to length 3 over a menu
+    of requests.  Runs of this kind walk through a seeded permutation of the 1 884 menu sequences (each on its
+    own generated world), so that coverage of the short histories does not depend on luck; after the sequence
+    every request of it is issued once more in reverse order (results must not have changed)."""
+    prof = dict(gen_data.PROFILE_C18, n_inputs=(2, 3), faults=[], p_aux=0.0)
+    spec = gen_data.gen_spec("C18", seed, run, tier, prof)
+    menu = menu_requests(spec["world"])
+    seq = menu_sequence(seed, k)
+    ops = [dict(menu[j]) for j in seq]
+    ops += [dict(menu[j]) for j in reversed(seq)]
+    spec["ops"] = ops
+    spec["pre_ops"] = []
+    spec["pinned"] = True
+    spec["kind"] = "menu"
+    spec["menu_seq"] = seq
+    return spec
+
+
 def c18_gen(seed, run, tier):
     if run % (700 if tier == "quick" else 400) == 107:
         return c18_marathon(seed, run, tier)
+    if run % 10 == 3:
+        return c18_menu(seed, run, tier, run // 10)
     spec = gen_data.gen_spec("C18", seed, run, tier, gen_data.PROFILE_C18)
     trng = prng.stream(seed, "C18", run, "tenant")
     if trng.random() < 0.2:
@@ -143,6 +219,9 @@ def c18_execute(spec, workdir):
     if spec.get("kind") == "marathon":
         res["stats"]["probe:marathon_runs"] = 1
         res["mode"] = "marathon"
+    if spec.get("kind") == "menu":
+        res["stats"]["probe:menu_runs"] = 1
+        res["mode"] = "menu"
     if res["violation"] is not None and not spec.get("pinned", True):
         # classification (does the violation survive with the global RNG pinned?) needs a second
         # execution from pristine process state: requested from the runner, see c18_classify
@@ -156,6 +235,8 @@ def c18_execute(spec, workdir):
     reqs = [op for op in spec["ops"] if op["op"] == "req"][:3]
     res["sets"] = {"request_prefixes_len3": [hashlib.sha256(repr([("+".join(f[0] for f in op["fields"]), bool(op.get("single")),
                                                                  op["axis"], op["input"]) for op in reqs]).encode()).hexdigest()[:12]]}
+    if spec.get("kind") == "menu":
+        res["sets"]["menu_sequences_len1to3_of_%d" % MENU_SEQS] = ["-".join(map(str, spec["menu_seq"]))]
     st = res["stats"]
     # non-trivial: at least two requests reached the data layer and missed the request cache
     res["nontrivial"] = (st.get("req_ok", 0) + st.get("req_exit", 0) + st.get("req_exc", 0)
